@@ -907,9 +907,10 @@ func EscapeTagKey(v string) string {
 
 func EscapeTagValue(v string) string {
 	if v == "" {
-		return ""
+		return "\"\""
 	}
-	escape := (v[0] < 'a' && v[0] > 'z') && (v[0] < 'A' && v[0] > 'Z') && v[0] != '_'
+	// Unquoted values are lexed as symbols, which start with a letter
+	escape := !((v[0] >= 'a' && v[0] <= 'z') || (v[0] >= 'A' && v[0] <= 'Z'))
 	if !escape {
 		for _, r := range v[1:] {
 			if escape = !isValidSymbolRune(r); escape {
